@@ -425,8 +425,13 @@ class Live(Family):
             if mode == "factory" and (rng.random() < 0.15 if thorough else i == 0):
                 d["slow_handler"] = 31          # the handler completes 31 s (server clock) after the request: its response still arrives whole
             if d["trail"] == 0 and sz >= 200000 and (rng.random() < 0.3 if thorough else i == 3):
-                d["late_line"] = True           # a stray line sent after the request, in a TLS record of its own, while the body is being sent
-                d["reader"] = "slow" if sz <= 4 * MIB else d["reader"]
+                # a stray line sent after the request, in a TLS record of its own, WHILE the body is being sent: the body is large and
+                # the socket buffers small, and the client reads nothing before it has sent the line, so the server cannot have finished
+                # (junk that arrives after the server closed is the known finding reset-by-trailing-junk, not this)
+                d["late_line"] = True
+                d["n"] = max(d["n"], 1200000 + rng.randint(0, 70000))
+                d["sndbuf"], d["rcvbuf"] = 4096, 2048
+                d["reader"] = "slow" if d["n"] <= 4 * MIB else d["reader"]
             if thorough and rng.random() < 0.12:
                 # a client that stops reading for 31 s (on the server's clock) in the middle of the download
                 d.update({"reader": "stall", "sndbuf": rng.choice([4096, 16384]), "rcvbuf": rng.choice([2048, 8192]), "stalls": rng.choice([1, 3, 12])})
@@ -492,7 +497,8 @@ class Live(Family):
                                            stall=lambda: srv.advance(stall_seconds()), stalls=case.get("stalls", 1))
                     used = srv.used_backend
                 g = sink.result()
-                g.update({"eof": r["eof"], "version": r["version"], "used": used, "elapsed": r.get("elapsed", 0), "reader": case["reader"], "trail": case.get("trail", 0)})
+                g.update({"eof": r["eof"], "version": r["version"], "used": used, "elapsed": r.get("elapsed", 0), "reader": case["reader"], "trail": case.get("trail", 0),
+                          "junk": bool(backend == "pyo" and (case.get("trail", 0) > 0 or case.get("late_line")))})
                 obs[backend] = g
         finally:
             H.StaticFileHandler.handle = orig
@@ -529,7 +535,7 @@ class Live(Family):
             # the download was torn down 30 s after close(): the model's identity transport rests on the assumption that
             # asyncio flushes what was written before close(); where that assumption fails the ORACLE reports the case
             # (signature live-*-cut-*), it is not counted a second time as a model disagreement
-            return g["blen"] <= expected["blen"] and g["eof"] != "clean" and (g.get("reader") == "stall" or g.get("elapsed", 0) >= 29 or g.get("trail", 0) >= 65536)
+            return g["blen"] <= expected["blen"] and g["eof"] != "clean" and (g.get("reader") == "stall" or g.get("elapsed", 0) >= 29 or (g.get("used") == "std" and g.get("trail", 0) >= 65536))
 
         return all(cut(obs[b]) or (expected["header"] == obs[b]["header"] and expected["blen"] == obs[b]["blen"] and
                                    (expected["bsha"] is None or expected["bsha"] == obs[b]["bsha"])) for b in ("std", "pyo"))
@@ -542,11 +548,14 @@ class Live(Family):
             v = judge(f"live-{b}", obs[b], bytes.fromhex(w["header"]), w["blen"], w["bsha"])
             if v:
                 g = obs[b]
-                if case.get("trail", 0) >= 65536 and g["eof"] != "clean" and v[0].endswith(("-body-truncated", "-no-clean-eof")):
+                # asyncio's own TLS transport aborts when application data follows its close_notify (the PyOpenSSL wrapper half-closes and
+                # keeps reading: repaired, see known_findings "fixed:")
+                junk_after_close = b == "std" and case.get("trail", 0) >= 65536
+                if junk_after_close and g["eof"] != "clean" and v[0].endswith(("-body-truncated", "-no-clean-eof")):
                     # its own signature: the connection was RESET because junk sent after the request line was still arriving when the
                     # server closed (known finding reset-by-trailing-junk; any other truncation keeps its ordinary signature)
                     return (f"live-{b}-reset-by-trailing-junk",
-                            f"{b} backend: the client sent {case['trail']} bytes after its request line and received {g['blen']} of {w['blen']} body bytes "
+                            f"{b} backend: the client sent {case.get('trail') or 'a stray line'} (bytes) after its request line and received {g['blen']} of {w['blen']} body bytes "
                             f"before the connection was reset (end of stream: {g['eof']}; reader: {case['reader']})")
                 if v[0].endswith("-body-truncated") and g["eof"] != "clean" and (case["reader"] == "stall" or g.get("elapsed", 0) >= 29):
                     # a distinct, stable signature for the download that is still in progress 30 s after the
